@@ -147,6 +147,26 @@ class TriggerContext:
             return SpanActionContext(self, action)
         return NoActionContext(self, action)
 
+    def evaluate(self, expression: str) -> any:
+        """
+        Evaluate an expression in the paused frame.
+
+        The expression sees the names visible at that line: the globals of the frame's module, overlaid with the
+        locals of the frame. The locals are part of the mapping given to eval as globals: the nested scopes of an
+        expression (generator expressions, lambdas) resolve names in the globals only - with the module's globals
+        alone a local is not found there, or a global of the same name is silently used instead. Both mappings are
+        copies, so what the expression binds (x := ...) never reaches the frame - python writes changes to f_locals
+        back into the running function.
+
+        :param expression: the expression
+        :return: the result of the expression
+        :raises: whatever the expression raises
+        """
+        local_names = dict(self.__frame.f_locals)
+        names = dict(getattr(self.__frame, 'f_globals', {}))
+        names.update(local_names)
+        return eval(expression, names, local_names)
+
     def evaluate_expression(self, expression: str) -> any:
         """
         Evaluate an expression to a value.
@@ -155,7 +175,7 @@ class TriggerContext:
         :return: the result of the expression, or the exception that was raised.
         """
         try:
-            return eval(expression, getattr(self.__frame, 'f_globals', {}), self.__frame.f_locals)
+            return self.evaluate(expression)
         except BaseException as e:
             # without its traceback: the traceback refers to our frames, which lead back (f_back) to the frame of the
             # caller that stores this result - a reference cycle that keeps the whole stack, the application's frames
